@@ -38,6 +38,13 @@ struct ticket_spinlock {
 	constexpr ticket_spinlock()
 	: next_ticket_{0}, serving_ticket_{0} { }
 
+#ifdef FRG_VERIF_HOOKS
+	// Verification only: a lock whose next ticket is first_ticket
+	// (e.g., just below the 2^32 wrap-around of the counters).
+	constexpr explicit ticket_spinlock(uint32_t first_ticket)
+	: next_ticket_{first_ticket}, serving_ticket_{first_ticket} { }
+#endif
+
 	ticket_spinlock(const ticket_spinlock &) = delete;
 	ticket_spinlock &operator= (const ticket_spinlock &) = delete;
 
